@@ -33,9 +33,14 @@
 //   maxlen K B              length of the text of the largest (and smallest) value of the kind in base B
 //   atorep K B LEN PAT TAIL igris_ato<K> on PAT repeated to LEN bytes followed by TAIL (long inputs)
 //   seq   K V B1,B2,..      the same value rendered into ONE buffer in several bases, one after the other
-//   twin toa|ato|h2h ...    the same operation on the unanchored copy in igris/container/std_portable.h (finding
-//                           C07-std-portable-twin: every defect repaired in numconvert.c is still in that copy)
+//   twin <op> ...           the same operation (toa ato h2h rng sweep maxlen atorep seq) on the unanchored copy of the
+//                           routines in igris/container/std_portable.h (repaired in round 3b; compared with the same model)
 //   asml  W V1 [V2 V3 V4]   debug_asmlink_args<W>x<N>; asmr V: debug_asmlink_ret8..64, _test, dprptr(V), dprptrln(V), debug_print(NULL)
+// round 3b:
+//   dpr hex_u4x|bin_u4x V   debug_printhex_uint4 / debug_printbin_uint4 with the unmasked uint8_t argument (generated for 0..15)
+//   consts                  compared: platform + the types an entry point's name fixes; tags: base / size / length parameter types
+// The harness is four translation units (this one: oracle references, renderer ops, sweeps, dispatch; C07_parse.cpp,
+// C07_dprint.cpp, C07_gen.cpp) + C07_libc.c + C07_twin.cpp, see C07_common.h.
 #include "C07_common.h"
 #include <igris/util/numconvert.h>
 #include <igris/util/hexascii.h>
